@@ -2,6 +2,7 @@
 package c06
 
 import (
+	"encoding/binary"
 	"fmt"
 	"math"
 	"reflect"
@@ -11,6 +12,7 @@ import (
 	"unsafe"
 
 	"github.com/philpearl/avro"
+	"github.com/unravelin/null/v5"
 
 	"verifharness/filedrv"
 	"verifharness/fw"
@@ -461,6 +463,23 @@ func fileTasks(tier string) []task {
 					offer(x.role+"="+m.name, splice(f.Data, x.off, x.len, m.enc))
 				}
 			}
+			// the length a snappy block declares for its decompressed data (an unsigned varint at the start of the
+			// compressed payload), in EVERY block: what the reader allocates must not follow it blindly — whatever
+			// it has already read or allocated for earlier blocks
+			if f.Codec == "snappy" {
+				for bi, b := range p.Blocks {
+					if b.PayloadEnd-b.PayloadStart < 5 {
+						continue
+					}
+					_, nn := binary.Uvarint(f.Data[b.PayloadStart:])
+					if nn <= 0 {
+						continue
+					}
+					for _, dl := range []uint64{0, 1, 1 << 16, 1 << 20, 1 << 24, 1 << 28, 1 << 30, 1<<31 - 1, 1<<32 - 1, 1 << 40} {
+						offer(fmt.Sprintf("snappy-declared-length-of-block-%d=%d", bi, dl), splice(f.Data, b.PayloadStart, nn, binary.AppendUvarint(nil, dl)))
+					}
+				}
+			}
 			for cut := 0; cut < len(f.Data); cut++ {
 				offer("truncated", f.Data[:cut])
 			}
@@ -564,13 +583,23 @@ type anyStruct struct {
 	M map[string]int64  `json:"m"`
 	R struct{ X int64 } `json:"r"`
 	X [4]byte           `json:"x"`
+	// fields of types with REGISTERED builders (time and null packages): whatever schema the document assigns
+	// to them reaches those builders too
+	T  time.Time   `json:"t"`
+	PT *time.Time  `json:"pt"`
+	N  null.Int    `json:"n"`
+	NS null.String `json:"ns"`
+	NT null.Time   `json:"nt"`
+	NB null.Bool   `json:"nb"`
+	NF null.Float  `json:"nf"`
 }
 
 func schemaTasks(tier string) []task {
+	reg.Init()
 	docs := []string{
 		`"long"`, `{"type":"long","logicalType":"timestamp-micros"}`, `["null","string"]`,
 		`{"type":"record","name":"r","namespace":"n","fields":[{"name":"a","type":"long"},{"name":"f","type":"bytes"},{"name":"l","type":{"type":"array","items":"string"}},{"name":"m","type":{"type":"map","values":"long"}},{"name":"x","type":{"type":"fixed","name":"fx","size":4}},{"name":"r","type":{"type":"record","name":"in","fields":[{"name":"X","type":["null","long"]}]}}]}`,
-		`{"type":"enum","name":"e","symbols":["A","B"]}`, `{"type":"array","items":{"type":"map","values":["null",{"type":"fixed","name":"f","size":2}]}}`,
+		`{"type":"enum","name":"e","symbols":["A","B"]}`, `{"type":"int","logicalType":"date"}`, `["null",{"type":"long","logicalType":"timestamp-millis"}]`, `{"type":"array","items":{"type":"map","values":["null",{"type":"fixed","name":"f","size":2}]}}`,
 	}
 	typeNames := []string{"null", "boolean", "int", "long", "float", "double", "bytes", "string", "record", "enum", "array", "map", "union", "fixed", "", "bogus"}
 	var ts []task
@@ -599,6 +628,16 @@ func schemaTasks(tier string) []task {
 						var v anyStruct
 						codec.Read(avro.NewReadBuf([]byte{2, 2, 2, 2, 2, 2, 2, 2, 2, 2, 2, 2, 2, 2, 2, 2}), unsafe.Pointer(&v))
 						codec.Skip(avro.NewReadBuf([]byte{2, 2, 2, 2, 2, 2, 2, 2, 2, 2, 2, 2, 2, 2, 2, 2}))
+					}
+					// and as the schema of ONE field at a time (a record of several fields is refused at the first
+					// field the schema does not suit, so the later builders would never see it)
+					for _, fn := range []string{"a", "f", "s", "l", "m", "r", "x", "t", "pt", "n", "ns", "nt", "nb", "nf"} {
+						one := avro.Schema{Type: "record", Object: &avro.SchemaObject{Name: "w1", Fields: []avro.SchemaRecordField{{Name: fn, Type: s}}}}
+						if codec, err := one.Codec(anyStruct{}); err == nil {
+							var v anyStruct
+							codec.Read(avro.NewReadBuf([]byte{2, 2, 2, 2, 2, 2, 2, 2}), unsafe.Pointer(&v))
+							codec.Skip(avro.NewReadBuf([]byte{2, 2, 2, 2, 2, 2, 2, 2}))
+						}
 					}
 					s.Marshal()
 				})
@@ -660,7 +699,7 @@ func schemaTasks(tier string) []task {
 					return
 				}
 				s.Codec(anyStruct{})
-				wrapped := avro.Schema{Type: "record", Object: &avro.SchemaObject{Fields: []avro.SchemaRecordField{{Name: "a", Type: s}, {Name: "l", Type: s}, {Name: "m", Type: s}, {Name: "x", Type: s}, {Name: "q", Type: s}}}}
+				wrapped := avro.Schema{Type: "record", Object: &avro.SchemaObject{Fields: []avro.SchemaRecordField{{Name: "a", Type: s}, {Name: "l", Type: s}, {Name: "m", Type: s}, {Name: "x", Type: s}, {Name: "q", Type: s}, {Name: "t", Type: s}, {Name: "pt", Type: s}, {Name: "n", Type: s}, {Name: "nt", Type: s}, {Name: "nf", Type: s}}}}
 				wrapped.Codec(anyStruct{})
 			})
 			if l == maxLen {
